@@ -21,7 +21,23 @@ import (
 
 // garbleValue returns a well-formed but unexpected typed value for a leaf.
 func garbleValue(t *sim.Tape, orig *sdcpb.TypedValue) (*sdcpb.TypedValue, string) {
-	switch t.Choose(14) {
+	switch t.Choose(22) {
+	case 14:
+		return &sdcpb.TypedValue{Value: &sdcpb.TypedValue_JsonVal{JsonVal: []byte{}}}, "json-zero-bytes"
+	case 15:
+		return &sdcpb.TypedValue{Value: &sdcpb.TypedValue_JsonIetfVal{JsonIetfVal: []byte{}}}, "jsonietf-zero-bytes"
+	case 16:
+		return &sdcpb.TypedValue{Value: &sdcpb.TypedValue_JsonVal{JsonVal: []byte(`null`)}}, "json-null"
+	case 17:
+		return &sdcpb.TypedValue{Value: &sdcpb.TypedValue_JsonIetfVal{JsonIetfVal: []byte(`{}`)}}, "jsonietf-empty-object"
+	case 18:
+		return &sdcpb.TypedValue{Value: &sdcpb.TypedValue_JsonVal{JsonVal: []byte(`[]`)}}, "json-empty-array"
+	case 19:
+		return &sdcpb.TypedValue{Value: &sdcpb.TypedValue_JsonVal{JsonVal: []byte(`{"name":`)}}, "json-truncated"
+	case 20:
+		return &sdcpb.TypedValue{Value: &sdcpb.TypedValue_BytesVal{BytesVal: []byte{0, 255, 1}}}, "bytes"
+	case 21:
+		return &sdcpb.TypedValue{Value: &sdcpb.TypedValue_JsonIetfVal{JsonIetfVal: []byte(`{"vsim:name":"a","vsim-ext:unknown":{"a":[null]}}`)}}, "jsonietf-foreign-members"
 	case 0:
 		return nil, "nil-value"
 	case 1:
@@ -53,6 +69,21 @@ func garbleValue(t *sim.Tape, orig *sdcpb.TypedValue) (*sdcpb.TypedValue, string
 	}
 }
 
+// garbleJSONAtAncestor puts an odd JSON / JSON_IETF document on an ancestor (container, list or list entry) of the path.
+func garbleJSONAtAncestor(t *sim.Tape, upd *sdcpb.Update) (string, string) {
+	if n := len(upd.Path.GetElem()); n > 0 {
+		upd.Path.Elem = upd.Path.Elem[:t.Choose(n)]
+	}
+	docs := []string{"", `null`, `{}`, `[]`, `{"name":`, `{"x":[1,{"y":null}],"name":{}}`, `"just a string"`, `[[[[[[[[[[1]]]]]]]]]]`, `{"vsim:name":"a","vsim-ext:unknown":{"a":[null]}}`, `{"name":null}`, `[{"name":"a"},{"name":"a"}]`, `7`}
+	d := docs[t.Choose(len(docs))]
+	if t.Bool(1, 2) {
+		upd.Value = &sdcpb.TypedValue{Value: &sdcpb.TypedValue_JsonVal{JsonVal: []byte(d)}}
+	} else {
+		upd.Value = &sdcpb.TypedValue{Value: &sdcpb.TypedValue_JsonIetfVal{JsonIetfVal: []byte(d)}}
+	}
+	return fmt.Sprintf("ancestor-%d", len(upd.Path.GetElem())), fmt.Sprintf("json-doc %q", d)
+}
+
 // garblePath mutates a valid path structurally.
 func garblePath(t *sim.Tape, p *sdcpb.Path) (*sdcpb.Path, string) {
 	q := proto.Clone(p).(*sdcpb.Path)
@@ -60,7 +91,13 @@ func garblePath(t *sim.Tape, p *sdcpb.Path) (*sdcpb.Path, string) {
 		return q, "same"
 	}
 	i := t.Choose(len(q.Elem))
-	switch t.Choose(11) {
+	switch t.Choose(13) {
+	case 11:
+		q.Elem = q.Elem[:len(q.Elem)-1]
+		return q, "parent-path"
+	case 12:
+		q.Elem = q.Elem[:1]
+		return q, "top-level-path"
 	case 0:
 		q.Elem = append(q.Elem[:i], q.Elem[i+1:]...)
 		return q, "drop-elem"
@@ -127,11 +164,15 @@ func runC20(rc *sim.RunCtx) {
 		case 0: // garbled TransactionSet
 			upd := proto.Clone(base).(*sdcpb.Update)
 			m1, m2 := "same", "same"
-			if t.Bool(2, 3) {
-				upd.Path, m1 = garblePath(t, upd.Path)
-			}
-			if t.Bool(2, 3) {
-				upd.Value, m2 = garbleValue(t, upd.Value)
+			if t.Bool(1, 4) {
+				m1, m2 = garbleJSONAtAncestor(t, upd)
+			} else {
+				if t.Bool(2, 3) {
+					upd.Path, m1 = garblePath(t, upd.Path)
+				}
+				if t.Bool(2, 3) {
+					upd.Value, m2 = garbleValue(t, upd.Value)
+				}
 			}
 			req := &sdcpb.TransactionSetRequest{DatastoreName: world.DSName, TransactionId: fmt.Sprintf("g%d", i), DryRun: t.Bool(1, 3),
 				Intents: []*sdcpb.TransactionIntent{{Intent: []string{"g1", "", "running", "default"}[t.Weighted([]int{6, 1, 1, 1})], Priority: []int32{10, 0, -5, 2147483647}[t.Weighted([]int{6, 1, 1, 1})], Update: []*sdcpb.Update{upd}}}}
@@ -166,11 +207,15 @@ func runC20(rc *sim.RunCtx) {
 		case 2: // garbled device notification into the conversion used by Sync
 			upd := proto.Clone(base).(*sdcpb.Update)
 			m1, m2 := "same", "same"
-			if t.Bool(1, 2) {
-				upd.Path, m1 = garblePath(t, upd.Path)
-			}
-			if t.Bool(2, 3) {
-				upd.Value, m2 = garbleValue(t, upd.Value)
+			if t.Bool(1, 3) {
+				m1, m2 = garbleJSONAtAncestor(t, upd)
+			} else {
+				if t.Bool(1, 2) {
+					upd.Path, m1 = garblePath(t, upd.Path)
+				}
+				if t.Bool(2, 3) {
+					upd.Value, m2 = garbleValue(t, upd.Value)
+				}
 			}
 			n := &sdcpb.Notification{Update: []*sdcpb.Update{upd}}
 			if t.Bool(1, 3) {
